@@ -337,7 +337,7 @@ func c16Flags(c *Ctx) {
 		ok := len(cs) == 1
 		if ok {
 			a := cs[0].Instr.Common().Args
-			ok = isHealthFlagsValue(a[0]) && a[1] == ssa.Value(fn.Params[1]) && cs[0].Instr.Block() == fn.Blocks[0]
+			ok = isHealthFlagsValue(a[0]) && sameParam(a[1], fn.Params[1]) && cs[0].Instr.Block() == fn.Blocks[0]
 		}
 		c.Check("C16.R2", funcKey(fn)+":delegates", fn.Pos(), ok, "unconditionally calls cluster."+m+"(sh.healthFlags, flag)", "simpleHost."+m+" does not unconditionally apply its own flag to its shared health word")
 	}
